@@ -32,6 +32,8 @@ var compact = map[string]string{
 	"a": "accept-contact", "b": "referred-by", "c": "content-type", "e": "content-encoding",
 	"f": "from", "i": "call-id", "k": "supported", "l": "content-length", "m": "contact",
 	"o": "event", "r": "refer-to", "s": "subject", "t": "to", "u": "allow-events", "v": "via",
+	// registered after RFC 3261 (RFC 4028, 3841, 8224): not in the proxy's own table, compact forms all the same
+	"x": "session-expires", "j": "reject-contact", "d": "request-disposition", "y": "identity",
 }
 
 // Canon maps a header name to its canonical lower-case long form.
